@@ -533,7 +533,7 @@ def explore(ctx, tier, search=False):
     P = load()
     cases = []
     rng = ctx.rng("trees")
-    n = ctx.budget(6000, 60000) if not search else 12000
+    n = ctx.budget(15000, 90000) if not search else 20000
     for i in range(n):
         mode = "domain" if rng.random() < 0.8 else "odd"
         check_tree(ctx, P, gen_dataset(rng, mode), cases, mode)
@@ -559,17 +559,17 @@ def explore(ctx, tier, search=False):
     cases = []
     rngf = ctx.rng("foreign")
     texts = []
-    for i in range(ctx.budget(3000, 30000)):
+    for i in range(ctx.budget(7000, 40000)):
         t = check_foreign(ctx, P, rngf, cases)
         if t:
             texts.append(t)
-    check_lean_foreign(ctx, P, ctx.rng("lean-foreign"), ctx.budget(2500, 25000), cases)
+    check_lean_foreign(ctx, P, ctx.rng("lean-foreign"), ctx.budget(6000, 35000), cases)
     ctx.correspond("dds_to_dataset on foreign-style texts", cases)
     # malformed stream: error classes / accepted trees must agree
     cases = []
     rngm = ctx.rng("malformed")
-    pool = texts[:1500] + MALFORMED
-    for i in range(ctx.budget(6000, 60000)):
+    pool = texts[:3000] + MALFORMED
+    for i in range(ctx.budget(15000, 90000)):
         base = rngm.choice(pool)
         text = base if base in MALFORMED and rngm.random() < 0.5 else mutate(rngm, base)
         if not ascii_ok(text) or not model_scope(text):
